@@ -168,6 +168,14 @@ def _compose_contract(simplify, via):
             h.ensure("C05.compose.sound.assumptions_self", z3.Implies(hyp, A1))
             h.ensure("C05.compose.sound.assumptions_other", z3.Implies(hyp, A2))
             h.ensure("C05.compose.sound.guarantees", z3.Implies(hyp, Gc))
+            if not simplify:
+                # C15, second sentence: no connection between the contracts (no output of one is an input of the other) and no
+                # simplification asked for - the composition is exact.  (With simplify=True the pinned tree drops a guarantee
+                # present on both sides: known finding, decided by the monitor.)
+                unconnected = z3.And(u.disjoint(O1, I2), u.disjoint(O2, I1))
+                h.ensure("C15.compose.unconnected_assumptions_are_the_conjunction", z3.Implies(unconnected, Ac == z3.And(A1, A2)))
+                # (the constructor simplifies the guarantees with respect to the assumptions: exact wherever those hold)
+                h.ensure("C15.compose.unconnected_guarantees_are_the_conjunction", z3.Implies(z3.And(unconnected, Ac), Gc == z3.And(G1, G2)))
             _fresh_contract_fields(h, u, res, [c1, c2, keep])
             # tactics_order is only ever handed to the primitives, never stored
             for rec in u.calls:
@@ -181,7 +189,7 @@ def _compose_contract(simplify, via):
 for _s in (True, False):
     contract(
         "IoContract.compose_tactics[simplify=%s]" % _s,
-        ["C05", "C01", "C06", "C13", "C14"],
+        ["C05", "C01", "C06", "C13", "C14", "C15"],
         [IOC + ":IoContract.compose_tactics", IOC + ":IoContract.__init__", IOC + ":IoContract.can_compose_with", IOC + ":TermList.__or__", IOC + ":TermList.__sub__", IOC + ":TermList.get_terms_with_vars", IOC + ":TermList.vars", IOC + ":TermList.copy", IOC + ":TermList.__init__", "pacti.utils.lists:list_union", "pacti.utils.lists:list_diff", "pacti.utils.lists:list_intersection"],
         "U",
         assumes=["P-refine", "P-relax", "P-simplify"],
